@@ -522,7 +522,9 @@ def r4_r5(ctx):
     dns = {}
     for st in statements(f.node):
         if isinstance(st, ast.If) and "SETTING_DNS_BEACON_" in src(st.test):
-            key = src(st.test).split("SETTING_DNS_BEACON_")[1]
+            import re as _re
+
+            key = _re.search(r"SETTING_DNS_BEACON_(\w+)", src(st.test)).group(1)
             calls = [c for s in st.body for c in ast.walk(s) if isinstance(c, ast.Call) and isinstance(c.func, ast.Attribute) and c.func.attr == "set_option"]
             dns[key] = (dotted(calls[0].func.value), _c(calls[0].args[0]), src(calls[0].args[1])) if len(calls) == 1 else None
     main_loop = [s2 for s2 in f.node.body if isinstance(s2, ast.For)]
